@@ -30,7 +30,11 @@
                                     ancestors already are in the upper layer;
                                     `createFile_over_dir_failsN`),
                                     `remove_dir_with_lower_children_failsN`
-                                    (+ `remove_dir_with_lower_only_child_failsN`).
+                                    (+ `remove_dir_with_lower_only_child_failsN`),
+                                    `ensure_parent_file_refusedN` (+ `_wfN`): the parent is a FILE
+                                    of the view, in whichever layer — create_dir / create_file /
+                                    append_file fail with `Other` and NO layer map changes (the
+                                    counterpart of the fix of `ensure_has_parent`).
      Hypotheses of D, as for two layers: `RootOk mu`, `AncDirsN (mu :: ms) ds` (every proper
      ancestor is a directory of the view), `ds.head? ≠ some woDir`; for listings that
      "/.whiteout" ++ p is not a FILE of the upper layer and the maps are well-formed (`WF`).
@@ -351,6 +355,63 @@ theorem remove_dir_with_lower_only_child_failsN (cs : List Str) (hne : cs ≠ []
   obtain ⟨ce, hce⟩ := (FMap.contains_iff _ _).1 hfirst.has
   rw [viewN_unmarked hmk, firstN_of_firstAt hfirst, hce]; rfl
 
+/-- **a file of the n-layer view cannot get children** (the formal counterpart of the fix of
+`OverlayFS::ensure_has_parent`, n layers). The parent `ds` of `p = ds/n` is a FILE of the view —
+in whichever of the n layers it sits: `create_dir(p)`, `create_file(p)` and `append_file(p)`
+through the overlay fail with `Other`, and the world is unchanged, so EVERY layer map is what it
+was (before the fix the call failed too, but left the parent shadowed by an empty directory in
+the upper layer). For `append_file` nothing must sit at `p` in the upper map, which is the case
+in every well-formed upper map (`upper_child_absent_of_viewN_file`). -/
+theorem ensure_parent_file_refusedN (ds : List Str) (n : Str) (hdne : ds ≠ [])
+    (hds : ∀ c ∈ ds, GoodComp c) (hn : GoodComp n) (e : Entry)
+    (hv : viewN (mu :: ms) (renderC ds) = some e) (hf : e.ftype = .file) :
+    (Overlay.fs (layersN (u :: is) (idu :: ids))).createDir (renderC (ds ++ [n])) w
+        = (.err .other none, w) ∧
+    (Overlay.fs (layersN (u :: is) (idu :: ids))).createFile (renderC (ds ++ [n])) w
+        = (.err .other none, w) ∧
+    (mu.find? (renderC (ds ++ [n])) = none →
+      (Overlay.fs (layersN (u :: is) (idu :: ids))).appendFile (renderC (ds ++ [n])) w
+        = (.err .other none, w)) := by
+  have hcs := good_snoc hds hn
+  have hne : ds ++ [n] ≠ [] := by simp
+  have hE : pEnsureN (mu :: ms) (ds ++ [n]).dropLast = (.err .other none, mu) := by
+    rw [List.dropLast_concat]; exact pEnsureN_file hdne hv hf
+  refine ⟨?_, ?_, ?_⟩
+  · show Overlay.createDir _ _ w = _
+    rw [run_ocreateDirN h _ hne hcs]
+    unfold pCreateDirN
+    rw [hE]
+    simp only [andThen, h.hu.same]
+  · show Overlay.createFile _ _ w = _
+    rw [run_ocreateFileN h _ hne hcs]
+    unfold pCreateFileN
+    rw [hE]
+    simp only [andThen, Res.map, h.hu.same]
+  · intro hup
+    have key : ∀ cs : List Str, cs ≠ [] → (∀ c ∈ cs, GoodComp c) →
+        pEnsureN (mu :: ms) cs.dropLast = (.err .other none, mu) →
+        mu.find? (renderC cs) = none →
+        Overlay.appendFile (layersN (u :: is) (idu :: ids)) (renderC cs) w
+          = (.err .other none, w) := by
+      intro cs hne hcs hE hup
+      unfold Overlay.appendFile copyUp
+      simp [bind, M.bind, M.ret, writePath_layersN cs hne hcs, run_vexists h.hu,
+        contains_of_none hup, run_ensureHasParentN h cs hne hcs, hE, h.hu.same]
+    exact key _ hne hcs hE hup
+
+/-- the same with a well-formed upper map instead of "nothing at `p` in the upper map" -/
+theorem ensure_parent_file_refused_wfN (ds : List Str) (n : Str) (hdne : ds ≠ [])
+    (hds : ∀ c ∈ ds, GoodComp c) (hn : GoodComp n) (e : Entry)
+    (hv : viewN (mu :: ms) (renderC ds) = some e) (hf : e.ftype = .file) (hwf : WF mu) :
+    (Overlay.fs (layersN (u :: is) (idu :: ids))).createDir (renderC (ds ++ [n])) w
+        = (.err .other none, w) ∧
+    (Overlay.fs (layersN (u :: is) (idu :: ids))).createFile (renderC (ds ++ [n])) w
+        = (.err .other none, w) ∧
+    (Overlay.fs (layersN (u :: is) (idu :: ids))).appendFile (renderC (ds ++ [n])) w
+        = (.err .other none, w) := by
+  obtain ⟨h1, h2, h3⟩ := ensure_parent_file_refusedN h ds n hdne hds hn e hv hf
+  exact ⟨h1, h2, h3 (upper_child_absent_of_viewN_file hwf hds hn hv hf)⟩
+
 end settingN
 
 /-! ### E. instantiation: two layers (Props/C09.lean) and one layer -/
@@ -541,5 +602,17 @@ example : (ofs4.createFile "/s".toList w4).1 = .err .other none := by decide
 example : (ofs4.createDir "/s".toList w4).2.leaves = w4.leaves := by decide
 example : (ofs4.removeDir "/s".toList w4).1 = .err .other none := by decide
 example : (ofs4.removeDir "/s".toList w4).2.leaves = w4.leaves := by decide
+-- "/f" is a FILE of the view (served by layer 2, also in layer 3): it gets no children and
+-- no leaf changes (the call used to leave an empty directory "/f" in the upper layer)
+example : (ofs4.createDir "/f/y".toList w4).1 = .err .other none := by decide
+example : (ofs4.createDir "/f/y".toList w4).2.leaves = w4.leaves := by decide
+example : (ofs4.createFile "/f/y".toList w4).2.leaves = w4.leaves := by decide
+example : ((do let _ ← ofs4.appendFile "/f/y".toList; pure () : M Unit) w4).1
+    = .err .other none := by decide
+example : (ofs4.appendFile "/f/y".toList w4).2.leaves = w4.leaves := by decide
+-- the theorem, instantiated
+example : ofs4.createDir "/f/y".toList w4 = (.err .other none, w4) :=
+  (ensure_parent_file_refusedN w4_setting ["f".toList] "y".toList (by simp) (by decide)
+    (by decide) (fileOf [76, 50]) (by decide) rfl).1
 
 end Vfs.C09
